@@ -102,6 +102,10 @@ impl InstructionGenerator {
                     pos,
                 );
                 // jump out
+                // (the statement address keeps the zero step check below apart from
+                // the NEXT of this copy: RESUME after a zero step must not run the
+                // increment, it continues behind the loop)
+                self.mark_statement_address();
                 self.jump("out-of-for", pos);
                 // Zero step
                 self.label("zero", pos);
